@@ -84,6 +84,10 @@ PROP = [  # (subject fragment, property, also)
  ("re-resolves the column positions of the table's remaining foreign keys", "C33", "C24"),
  ("rejected ALTER TABLE ADD CONSTRAINT FOREIGN KEY (cycle of foreign keys) leaves the table", "C33", ""),
  ("COUNT(*) fast path checks the SELECT privilege", "C26", ""),
+ ("REPLACE is atomic also for a single row", "C11", ""),
+ ("ON DUPLICATE KEY UPDATE enforces referential integrity like UPDATE", "C12", ""),
+ ("re-checks a row's foreign keys when it is inserted", "C12", ""),
+ ("deliver an ORDER BY that mixes ascending and descending columns", "C02", ""),
  ("DROP COLUMN is refused when the rest of a multi-column UNIQUE constraint", "C33", "C10"),
  ("index-backed IN (subquery) shortcut checks the SELECT privilege", "C26", ""),
 ]
